@@ -274,6 +274,15 @@ func (g *gen) sanitize(o client.Object) {
 			ing.Annotations[annPrefix+k] = v
 		}
 	}
+	if g.opt.Avoid["tcp_port_per_ingress"] {
+		if _, has := ing.Annotations[annPrefix+"tcp-service-port"]; has {
+			for i, nn := range ingNames {
+				if nn[0] == ing.Namespace && nn[1] == ing.Name {
+					ing.Annotations[annPrefix+"tcp-service-port"] = fmt.Sprint(7000 + i)
+				}
+			}
+		}
+	}
 	if g.opt.Avoid["no_new_default_backend"] {
 		if g.world != nil {
 			if ing.Spec.DefaultBackend != nil {
